@@ -179,7 +179,7 @@ pub struct RunStats {
 }
 
 /// Run a history on the real TorrentMaps, returning the Coq term `(max_resp, pc, [(op, out)..])`.
-pub fn run_history(h: &History, scratch: &std::path::Path, seed: u64, st: &mut RunStats) -> String {
+pub fn run_history(h: &History, scratch: &std::path::Path, seed: u64, st: &mut RunStats, items: &mut Vec<String>) {
     let mut config = Config::default();
     config.protocol.max_response_peers = h.max_resp;
     config.statistics.peer_clients = h.peer_clients;
@@ -192,7 +192,6 @@ pub fn run_history(h: &History, scratch: &std::path::Path, seed: u64, st: &mut R
     let (tx, rx) = crossbeam_channel::unbounded();
     let access_list: Arc<AccessListArcSwap> = Arc::new(AccessListArcSwap::default());
     let mut rng = SmallRng::seed_from_u64(seed);
-    let mut items: Vec<String> = Vec::new();
     for op in &h.ops {
         match op {
             Op::Announce { src, hash, port, ev, left, pid, until, want, req_ip } => {
@@ -356,30 +355,22 @@ pub fn run_history(h: &History, scratch: &std::path::Path, seed: u64, st: &mut R
             }
         }
     }
-    format!("({}, {}, {})", cq::nat(h.max_resp), cq::b(h.peer_clients), cq::list(&items))
 }
 
 pub fn run(args: &Args) {
     let scratch = std::path::PathBuf::from(format!("/verif/.cache/scratch/udp-swarm-{}", std::process::id()));
     std::fs::create_dir_all(&scratch).unwrap();
     let mut st = RunStats { announces: 0, scrapes: 0, cleans: 0, stops: 0, max_reply_peers: 0 };
-    for idx in 0..args.count {
-        if let Some(only) = args.only {
-            if only != idx {
-                continue;
-            }
-        }
-        // each case has its own PRNG stream so that --only reproduces it exactly
-        let mut rng = Prng::new(args.seed ^ ((idx as u64) << 20) ^ 0x5eed);
-        let mut h = gen_history(&mut rng);
-        if let Some(keep) = &args.keep {
+    crate::drive(args, 0x5eed, |rng, keep, case_seed, header, items| {
+        let mut h = gen_history(rng);
+        if let Some(keep) = keep {
             h.ops = h.ops.iter().enumerate().filter(|(i, _)| keep.contains(i)).map(|(_, o)| o.clone()).collect();
         }
-        let term = run_history(&h, &scratch, args.seed.wrapping_add(idx as u64), &mut st);
-        println!("CASE {} {} {}", idx, h.ops.len(), term);
-    }
+        *header = format!("{}, {}", cq::nat(h.max_resp), cq::b(h.peer_clients));
+        run_history(&h, &scratch, case_seed, &mut st, items);
+    });
     println!(
-        "STAT {{\"announces\": {}, \"stops\": {}, \"scrapes\": {}, \"cleans\": {}, \"max_reply_peers\": {}}}",
+        "STAT2 {{\"announces\": {}, \"stops\": {}, \"scrapes\": {}, \"cleans\": {}, \"max_reply_peers\": {}}}",
         st.announces, st.stops, st.scrapes, st.cleans, st.max_reply_peers
     );
     let _ = std::fs::remove_dir_all(&scratch);
